@@ -393,7 +393,11 @@ def run(ctx) -> Report:
         return h, ip.call_function(h.func, [None, None] + list(ops))
 
     check_compound_derivatives(ctx, rep, lower, prefix="C03-lower/")
+    from .c03_compose import compose_grad
+
+    compose_grad(ctx, rep)
     check_memo_keys(ctx, rep, "C03-key", [MOD], only_functions=None)
+    rep.require_min("C03-compose", 40)
     rep.require_min("C03-table", 270)
     rep.require_min("C03-calc", 100)
     rep.require_min("C03-geo", 60)
@@ -406,7 +410,10 @@ def run(ctx) -> Report:
         "{(2,2),(3,3),(3,2)} with the ruleset object produced by lifting its own __init__, and compared with the oracle "
         "(grad x = I, grad X = K, grad f = Grad f or 0 when cell-wise constant, geometry via K[j,i]*rgrad[r,j], nesting guards). "
         "Lowering of div/nabla_div/nabla_grad/curl compared with the index definitions of operators.py; the dispatcher's choice "
-        "of ruleset and dimension checked on the AST."
+        "of ruleset and dimension checked on the AST. C03-compose: apply_derivatives interpreted from source on whole "
+        "expressions (products, quotients, math functions, conditionals, index contractions, restricted operands, Piola-mapped "
+        "reference values) under grad, grad(grad), div-like contractions, reference_grad and nested reference_grad, in one "
+        "symbolic affine geometry; the result must mean the chain-rule derivative and apply derivatives to terminals only."
     )
     rep.assumptions = [
         "MeshSequence (mixed-domain) branches of the ReferenceValue/ReferenceGrad rules are not instantiated",
